@@ -135,7 +135,7 @@ class Gen:
             "html": lambda: self.r.pick(HTML_TAGS), "svg": lambda: self.r.pick(SVG_TAGS),
             "custom": lambda: self.r.pick(CUSTOM_TAGS), "bound": lambda: self.r.pick(BOUND_COMPONENTS),
             "unbound": lambda: self.r.pick(UNBOUND_COMPONENTS), "member": lambda: self.r.pick(["NS.Item", "obj.Comp", "NS.a.B", "NS.div", "Card.title", "Form.input", "Table.td", "Icon.circle", "NS.my-el".replace("-", "_"),
-                                                             "obj.select", "NS.a.textarea", "NS.Fragment", "NS.KeepAlive"]),
+                                                             "obj.select", "NS.a.textarea", "NS.Fragment", "NS.KeepAlive", "NS.Unk", "obj.custom", "NS.zz-top", "NS.x-foo"]),
             "this": lambda: "this.Comp", "ns": lambda: "a:b", "Fragment": lambda: "Fragment",
             "_Fragment": lambda: "_Fragment", "KeepAlive": lambda: "KeepAlive",
         }[k]()
